@@ -576,7 +576,11 @@ class NotchFilterFactory(Transform):
 
     def reset(self):
         super().reset()
-        self.zi = signal.lfilter_zi(self.b, self.a)
+        # Start the filter at rest. The state returned by lfilter_zi is the
+        # steady state for a constant input of 1; using it unscaled put a
+        # transient at the start of the output that did not depend on the
+        # level or polarity of the input.
+        self.zi = np.zeros(max(len(self.a), len(self.b)) - 1)
 
     def transform(self, samples):
         samples, self.zi = signal.lfilter(self.b, self.a, samples, zi=self.zi)
